@@ -923,22 +923,32 @@ theorem putPlain_of_putFile {a a' b : FS} {k : Key} {c : Bytes} {S : List Key} (
       exact ⟨_, rfl⟩
 
 theorem saveRejFiles_cons_eq {w w1 w2 w3 : World} {name content : Bytes} {rest : List (Bytes × Bytes)} {k : Key}
-    (hk : safeKey name = some k)
+    (hk : safeKey name = some k) (hfp : w.fs.fileOnPath k = false)
     (h1 : w.op (.removeFile k) = .ok w1 ∨ w.op (.removeFile k) = .notFound w1)
     (h2 : w1.op (.createFile k) = .ok w2) (h3 : w2.op (.write k content) = .ok w3) :
     saveRejFiles w ((name, content) :: rest) = saveRejFiles w3 rest := by
-  rw [saveRejFiles, hk]
-  simp only
+  rw [saveRejFiles_cons, hk]
+  simp only [hfp, Bool.false_eq_true, if_false]
   rcases h1 with h1 | h1 <;> rw [h1] <;> simp only <;> rw [h2] <;> simp only <;> rw [h3]
 
 theorem saveRejFiles_cons_skip {w w1 w2 : World} {name content : Bytes} {rest : List (Bytes × Bytes)} {k : Key}
-    (hk : safeKey name = some k)
+    (hk : safeKey name = some k) (hfp : w.fs.fileOnPath k = false)
     (h1 : w.op (.removeFile k) = .ok w1 ∨ w.op (.removeFile k) = .notFound w1)
     (h2 : w1.op (.createFile k) = .notFound w2) :
     saveRejFiles w ((name, content) :: rest) = saveRejFiles w2 rest := by
-  rw [saveRejFiles, hk]
-  simp only
+  rw [saveRejFiles_cons, hk]
+  simp only [hfp, Bool.false_eq_true, if_false]
   rcases h1 with h1 | h1 <;> rw [h1] <;> simp only <;> rw [h2]
+
+/-- one reject file whose path leads through a regular file: both operations fail with `ENOTDIR` and the reject is
+bypassed (no fault injected) -/
+theorem rej_blocked {w : World} {name content : Bytes} {rest : List (Bytes × Bytes)} {k : Key}
+    (hf : w.faultAt = none) (hk : safeKey name = some k) (hfp : w.fs.fileOnPath k = true) :
+    ∃ w1, saveRejFiles w ((name, content) :: rest) = saveRejFiles w1 rest ∧ w1.faultAt = none ∧ w1.fs = w.fs := by
+  refine ⟨(w.logged (.removeFile k)).logged (.createFile k), ?_, hf, rfl⟩
+  rw [saveRejFiles_cons, hk]
+  simp only [hfp, if_true, hf]
+  rfl
 
 /-- one reject file whose directory does not exist: the driver's unlink finds nothing and the creation is skipped -/
 theorem rej_skip {w : World} {name content : Bytes} {rest : List (Bytes × Bytes)} {k : Key}
@@ -962,12 +972,12 @@ theorem rej_skip {w : World} {name content : Bytes} {rest : List (Bytes × Bytes
     simp [hfp, hnd, hkb]
   have e1 := op_run_nf hf (o := .removeFile k) hr
   have e2 := op_run_nf (w := { w with trace := w.trace ++ [.removeFile k] }) hf (o := .createFile k) hc
-  exact ⟨_, saveRejFiles_cons_skip hk (.inr e1) e2, hf, rfl⟩
+  exact ⟨_, saveRejFiles_cons_skip hk hfp (.inr e1) e2, hf, rfl⟩
 
 /-- one reject file whose directory exists -/
 theorem rej_write {w : World} {name content : Bytes} {rest : List (Bytes × Bytes)} {k : Key} {b' : FS}
-    (hf : w.faultAt = none) (hk : safeKey name = some k) (hr : w.fs.removeFile k ≠ .error .other)
-    (hp : putPlain w.fs k content = .ok b') :
+    (hf : w.faultAt = none) (hk : safeKey name = some k) (hfp : w.fs.fileOnPath k = false)
+    (hr : w.fs.removeFile k ≠ .error .other) (hp : putPlain w.fs k content = .ok b') :
     ∃ w1, saveRejFiles w ((name, content) :: rest) = saveRejFiles w1 rest ∧ w1.faultAt = none ∧ w1.fs = b' := by
   unfold putPlain at hp
   cases hc : (unlinked w.fs k).createFile k with
@@ -984,7 +994,7 @@ theorem rej_write {w : World} {name content : Bytes} {rest : List (Bytes × Byte
       have e2 := op_run_ok (w := { w with trace := w.trace ++ [.removeFile k], fs := b0 }) hf (o := .createFile k) hc
       have e3 := op_run_ok (w := { w with trace := w.trace ++ [.removeFile k] ++ [.createFile k], fs := b2 }) hf
         (o := .write k content) rfl
-      exact ⟨_, saveRejFiles_cons_eq hk (.inl e1) e2 e3, hf, rfl⟩
+      exact ⟨_, saveRejFiles_cons_eq hk hfp (.inl e1) e2 e3, hf, rfl⟩
     | error e =>
       cases e with
       | other => exact absurd hrm hr
@@ -995,7 +1005,7 @@ theorem rej_write {w : World} {name content : Bytes} {rest : List (Bytes × Byte
         have e2 := op_run_ok (w := { w with trace := w.trace ++ [.removeFile k] }) hf (o := .createFile k) hc
         have e3 := op_run_ok (w := { w with trace := w.trace ++ [.removeFile k] ++ [.createFile k], fs := b2 }) hf
           (o := .write k content) rfl
-        exact ⟨_, saveRejFiles_cons_eq hk (.inr e1) e2 e3, hf, rfl⟩
+        exact ⟨_, saveRejFiles_cons_eq hk hfp (.inr e1) e2 e3, hf, rfl⟩
 
 /-- **(D) the reject files**: if the specification's `putRejects` succeeds on a tree that agrees with the driver's
 outside `.pc`, the driver's `saveRejFiles` succeeds (no fault injected); the trees agree outside `.pc` afterwards -/
@@ -1022,7 +1032,12 @@ theorem saveRejFiles_succeeds : ∀ (rejs : List (Bytes × Bytes)), RejsOut rejs
       have hk' : ¬ isPcKey k := hr (name, content) (List.mem_cons_self ..) k hk
       have hd : a.isDir k.dropLast = w.fs.isDir k.dropLast := hab.isDir_eq (not_isPcKey_dropLast hk')
       split at hp
-      · cases hp
+      · rename_i hfpa
+        have hfp : w.fs.fileOnPath k = true := by
+          rw [← hab.fileOnPath_eq hk']; exact hfpa
+        obtain ⟨w1, e1, f1, hfs⟩ := rej_blocked (content := content) (rest := rest) hf hk hfp
+        obtain ⟨w', e2, f2, h2, h3⟩ := ih hrest a a' w1 S f1 (by rw [hfs]; exact hab) (by rw [hfs]; exact hi) hp
+        exact ⟨w', by rw [e1]; exact e2, f2, h2, h3⟩
       · rename_i hfpa
         have hfp : w.fs.fileOnPath k = false := by
           rw [← hab.fileOnPath_eq hk']
@@ -1053,7 +1068,7 @@ theorem saveRejFiles_succeeds : ∀ (rejs : List (Bytes × Bytes)), RejsOut rejs
                 rw [h] at this
                 cases this
                 exact removeFile_of_putFile ha1 har
-            obtain ⟨w1, e1, f1, hfs⟩ := rej_write (rest := rest) hf hk hrm hpl
+            obtain ⟨w1, e1, f1, hfs⟩ := rej_write (rest := rest) hf hk hfp hrm hpl
             obtain ⟨h1, h2⟩ := putFile_putPlain hab hk' hi hdir ha1 hpl
             obtain ⟨w', e2, f2, h3, h4⟩ := ih hrest a1 a' w1 S f1 (by rw [hfs]; exact h1) (by rw [hfs]; exact h2) hp
             exact ⟨w', by rw [e1]; exact e2, f2, h3, h4⟩
